@@ -1,4 +1,5 @@
 //! C08 - fast fields return exactly the values that were indexed (columnar crate directly + via tantivy).
+use std::collections::BTreeMap;
 use std::net::Ipv6Addr;
 use std::panic::{catch_unwind, AssertUnwindSafe};
 
@@ -702,6 +703,10 @@ pub fn replay(case: &Value) -> Vec<Violation> {
             serde_json::from_value::<MergeCase>(case["case"].clone()).ok().and_then(|mc| check_merge(&mc, &mut st))
         } else if case["kind"] == "tantivy" {
             check_tantivy_family(&mut st)
+        } else if case["kind"] == "legacy" {
+            check_legacy_merges(&mut st)
+        } else if case["kind"] == "merge_index" {
+            merge_cases(case["thorough"].as_bool().unwrap_or(false)).into_iter().nth(case["index"].as_u64().unwrap_or(0) as usize).and_then(|mc| check_merge(&mc, &mut st))
         } else {
             serde_json::from_value::<Spec>(case["spec"].clone()).ok().and_then(|s| check_spec(&s, &mut st))
         }
@@ -714,6 +719,105 @@ pub fn replay(case: &Value) -> Vec<Violation> {
 }
 
 /// through IndexWriter -> SegmentReader: the typed fast fields of the shared query-model schema
+/// all rows of all columns of a columnar, rendered per column name (typed columns of one name concatenated)
+fn all_rows(r: &ColumnarReader) -> Result<BTreeMap<String, Vec<Vec<String>>>, String> {
+    let n = r.num_docs();
+    let mut out: BTreeMap<String, Vec<Vec<String>>> = BTreeMap::new();
+    for (name, h) in r.list_columns().map_err(|e| e.to_string())? {
+        let c = h.open().map_err(|e| e.to_string())?;
+        let rows = read_rows(&c, n)?;
+        let e = out.entry(name).or_insert_with(|| vec![vec![]; n as usize]);
+        for (i, row) in rows.into_iter().enumerate() {
+            e[i].extend(row.iter().map(|v| match v {
+                // numeric columns may be coerced to another numeric type by a merge: compare numerically
+                Cv::Int(x) => format!("{}", *x as f64),
+                Cv::F(x) => format!("{x}"),
+                Cv::B(b) => format!("{b:?}"),
+            }));
+        }
+    }
+    Ok(out)
+}
+
+/// legacy formats: the repository's v1 / v2 sample columnars stacked with each other and with freshly written
+/// columnars in every position; every merged row equals the input row it comes from
+pub fn check_legacy_merges(st: &mut Stats) -> Option<(String, String)> {
+    let dir = "/repo/columnar/compat_tests_data";
+    let load = |f: &str| -> Result<ColumnarReader, String> {
+        let bytes = std::fs::read(format!("{dir}/{f}")).map_err(|e| format!("{f}: {e}"))?;
+        ColumnarReader::open(bytes).map_err(|e| format!("{f}: {e}"))
+    };
+    let (v1, v2) = match (load("v1.columnar"), load("v2.columnar")) {
+        (Ok(a), Ok(b)) => (a, b),
+        (a, b) => return Some(("machinery".into(), format!("sample columnars unreadable: {:?} {:?}", a.err(), b.err()))),
+    };
+    let multi = Spec { n: 5, presence: Presence::Multi, valfn: ValFn::Linear, ty: Ty::U64 };
+    let opt = Spec { n: 5, presence: Presence::Every(2), valfn: ValFn::Lcg, ty: Ty::I64 };
+    let fresh = build_columnar(&[("gen_multi", &multi), ("gen_opt", &opt)], 5);
+    let inputs: Vec<(&str, &ColumnarReader)> = vec![("v1", &v1), ("v2", &v2), ("fresh", &fresh)];
+    let mut orders: Vec<Vec<usize>> = vec![];
+    for a in 0..3 {
+        orders.push(vec![a]);
+        for b in 0..3 {
+            orders.push(vec![a, b]);
+            for c in 0..3 {
+                if a != b || b != c {
+                    orders.push(vec![a, b, c]);
+                }
+            }
+        }
+    }
+    for order in orders {
+        st.count("legacy_merges");
+        let refs: Vec<&ColumnarReader> = order.iter().map(|&i| inputs[i].1).collect();
+        let names: Vec<&str> = order.iter().map(|&i| inputs[i].0).collect();
+        let mut out = vec![];
+        if let Err(e) = merge_columnar(&refs, &[], MergeRowOrder::Stack(StackMergeOrder::stack(&refs)), &mut out) {
+            return Some(("merge_error".into(), format!("stack merge of {names:?}: {e}")));
+        }
+        let merged = match ColumnarReader::open(out) {
+            Ok(m) => m,
+            Err(e) => return Some(("merge_output_unreadable".into(), format!("stack merge of {names:?}: {e}"))),
+        };
+        let got = match all_rows(&merged) {
+            Ok(g) => g,
+            Err(e) => return Some(("merged_column_read_error".into(), format!("stack merge of {names:?}: {e}"))),
+        };
+        let total: u32 = refs.iter().map(|r| r.num_docs()).sum();
+        if merged.num_docs() != total {
+            return Some(("merged_num_docs".into(), format!("stack merge of {names:?}: {} rows, expected {total}", merged.num_docs())));
+        }
+        let mut want: BTreeMap<String, Vec<Vec<String>>> = BTreeMap::new();
+        let mut offset = 0usize;
+        for r in &refs {
+            let rows = match all_rows(r) {
+                Ok(x) => x,
+                Err(e) => return Some(("machinery".into(), e)),
+            };
+            for (name, rs) in rows {
+                let e = want.entry(name).or_insert_with(|| vec![vec![]; total as usize]);
+                for (i, row) in rs.into_iter().enumerate() {
+                    e[offset + i] = row;
+                }
+            }
+            offset += r.num_docs() as usize;
+        }
+        for (name, wrows) in &want {
+            let empty = vec![vec![]; total as usize];
+            let grows = got.get(name).unwrap_or(&empty);
+            for i in 0..total as usize {
+                let (mut g, mut w) = (grows[i].clone(), wrows[i].clone());
+                g.sort();
+                w.sort();
+                if g != w {
+                    return Some(("merged_values_differ".into(), format!("stack merge of {names:?}: column {name} merged row {i} holds {g:?}, the input row holds {w:?}")));
+                }
+            }
+        }
+    }
+    None
+}
+
 pub fn check_tantivy_family(st: &mut Stats) -> Option<(String, String)> {
     use crate::qmodel::*;
     let texts = texts_over(&["a", "b"], 3);
@@ -763,18 +867,22 @@ pub fn run(ctx: &Ctx) -> Report {
     let thorough = ctx.tier.is_thorough();
     enum W {
         S(Spec),
-        M(MergeCase),
+        M(usize, MergeCase),
         T,
+        /// legacy-format sample columnars in stack merges
+        L,
     }
     // the column family is cheap: both tiers run all of it; the tiers differ in the merge family
     let mut work: Vec<W> = specs(true).into_iter().map(W::S).collect();
-    work.extend(merge_cases(thorough).into_iter().map(W::M));
+    work.extend(merge_cases(thorough).into_iter().enumerate().map(|(k, m)| W::M(k, m)));
     work.push(W::T);
+    work.push(W::L);
     // large first
     work.sort_by_key(|w| std::cmp::Reverse(match w {
         W::S(s) => s.n as u64,
-        W::M(m) => m.ns.iter().map(|x| *x as u64).sum::<u64>() * 2,
+        W::M(_, m) => m.ns.iter().map(|x| *x as u64).sum::<u64>() * 2,
         W::T => 1000,
+        W::L => 900,
     }));
     let (st, done) = par_for(ctx, work.len(), |i, st| {
         st.eval();
@@ -789,7 +897,7 @@ pub fn run(ctx: &Ctx) -> Report {
                 }
                 (catch_unwind(AssertUnwindSafe(|| check_spec(spec, st))), json!({"kind":"column","spec":spec}))
             }
-            W::M(mc) => {
+            W::M(mk, mc) => {
                 st.nontrivial(&("merge", format!("{mc:?}").len(), i));
                 st.count("merges");
                 if mc.order.is_some() {
@@ -798,8 +906,12 @@ pub fn run(ctx: &Ctx) -> Report {
                 if i % 601 == 0 {
                     st.sample(json!({"kind":"merge","names":mc.names,"ns":mc.ns,"order_len":mc.order.as_ref().map(|o| o.len())}));
                 }
-                let cj = if mc.ns.iter().sum::<u32>() < 100 { json!({"kind":"merge","case":mc}) } else { json!({"kind":"merge_large","names":mc.names,"ns":mc.ns}) };
+                let cj = if mc.ns.iter().sum::<u32>() < 100 { json!({"kind":"merge","case":mc}) } else { json!({"kind":"merge_index","index":*mk,"thorough":thorough,"names":mc.names,"ns":mc.ns}) };
                 (catch_unwind(AssertUnwindSafe(|| check_merge(mc, st))), cj)
+            }
+            W::L => {
+                st.nontrivial(&"legacy");
+                (catch_unwind(AssertUnwindSafe(|| check_legacy_merges(st))), json!({"kind":"legacy"}))
             }
             W::T => {
                 st.nontrivial(&"tantivy");
@@ -813,15 +925,16 @@ pub fn run(ctx: &Ctx) -> Report {
         };
         let desc = match &work[i] {
             W::S(s) => format!("column {s:?}"),
-            W::M(m) => format!("merge of {:?} rows, columns {:?}, {}", m.ns, m.names, if m.order.is_some() { "shuffled" } else { "stacked" }),
+            W::M(_, m) => format!("merge of {:?} rows, columns {:?}, {}", m.ns, m.names, if m.order.is_some() { "shuffled" } else { "stacked" }),
             W::T => "tantivy fast fields".to_string(),
+            W::L => "legacy-format columnars".to_string(),
         };
         st.violation(Violation::new(&rule, format!("{desc}: {what}"), casej));
     });
     rep.set("exhaustive", done == work.len());
     rep.set("work_items", work.len() as u64);
-    rep.set("rule", "columns = N in {0,1,2,63,64,65,511,512,513,1025,5119,5120,5121,10240,65535,65536,65537,70000} x presence {all, none, every 2/3/64/13000-th, first half, last row, first K around 5120, multi-valued 0-3 values} x value function {constant, linear, linear+outlier, two-level, LCG, gcd-able, extremes, <=32-bit wide range} x type {u64,i64,f64,bool,date,ip,bytes,str} (all combinations up to 513 rows, a reduced set above): values_for_doc / first / num_docs / num_values / cardinality / min-max / dictionary order and every value-range lookup with bounds at values present +-1 and far beyond; merges: every pair of 8 tiny columns stacked and shuffled with every alive subset, differing column sets over three inputs, 70000-row inputs across the 65536-row block boundary; plus the typed fast fields of real index segments (deleted docs, two segments, merged). Non-trivial: >= 2 rows; distinct by spec");
-    for k in ["column_specs", "merges", "shuffled_merges", "range_lookups", "range_lookups_nontrivial", "tantivy_rows", "cardinality.Optional", "cardinality.Multivalued", "cardinality.Full"] {
+    rep.set("rule", "columns = N in {0,1,2,63,64,65,511,512,513,1025,5119,5120,5121,10240,65535,65536,65537,70000} x presence {all, none, every 2/3/64/13000-th, first half, last row, first K around 5120, multi-valued 0-3 values} x value function {constant, linear, linear+outlier, two-level, LCG, gcd-able, extremes, <=32-bit wide range} x type {u64,i64,f64,bool,date,ip,bytes,str} (all combinations up to 513 rows, a reduced set above): values_for_doc / first / num_docs / num_values / cardinality / min-max / dictionary order and every value-range lookup with bounds at values present +-1 and far beyond; merges: every pair of 8 tiny columns stacked and shuffled with every alive subset, differing column sets over three inputs, 70000-row inputs across the 65536-row block boundary; the repository's legacy-format (v1, v2) sample columnars stacked with each other and with freshly written columnars in every order of <= 3 inputs; plus the typed fast fields of real index segments (deleted docs, two segments, merged). Non-trivial: >= 2 rows; distinct by spec");
+    for k in ["legacy_merges", "column_specs", "merges", "shuffled_merges", "range_lookups", "range_lookups_nontrivial", "tantivy_rows", "cardinality.Optional", "cardinality.Multivalued", "cardinality.Full"] {
         if st.counters.get(k).copied().unwrap_or(0) == 0 {
             rep.machinery_errors.push(format!("vacuous: {k} = 0"));
         }
